@@ -440,7 +440,8 @@ Lemma advance_rollback_timeline : forall p gs g w d o p' o' G,
   QS w d p gs -> JI w p g -> Forall (fun c => cs_last c < I32MAX) (ps_status p) ->
   (forall h, In h (local_handles p) -> exists pi, assoc_get (ps_pending p) h = Some pi) ->
   TI p gs G ->
-  exists gs' R, o_requests o' = o_requests o ++ R /\ QS w d p' gs' /\ TI p' gs' (replay_hist G R).
+  exists gs' R, o_requests o' = o_requests o ++ R /\ QS w d p' gs' /\ TI p' gs' (replay_hist G R) /\
+    hist_step d (ps_pending p) (local_handles p) gs gs' /\ ps_kinds p' = ps_kinds p.
 Proof.
   intros p gs g w d o p' o' G E HQS HJI Hbnd Hpend (HG & HGI & HPN).
   destruct (rollback_confirm_progress predict p gs g w d o HQS HJI Hbnd)
@@ -478,8 +479,11 @@ Proof.
                                    exists pi, assoc_get (ps_pending p3) h = Some pi) (local_handles p3)).
   { apply Forall_forall. intros h Hin. pose proof Hin as Hin2. apply (local_handles_spec p3 h Hnp3) in Hin2.
     destruct Hin2 as (Hr & Hk). split; [lia|]. split; [exact Hk|]. apply Hpend. exact Hin. }
-  destruct (register_go_progress (local_handles p3) w d p3 gs3 HQS3 Hcl3 Hall)
-    as (p4 & gs4 & E4 & HQS4 & Hcl4 & Hrest4 & Hc4 & HL4 & Hdone4 & Hgrow4).
+  destruct (register_go_progress (local_handles p3) w d p3 gs3 HQS3 Hcl3 (local_handles_nodup p3) Hall)
+    as (p4 & gs4 & E4 & HQS4 & Hcl4 & Hrest4 & Hc4 & HL4 & Hdone4 & Hgrow4 & Hhist4).
+  assert (Hhist : hist_step d (ps_pending p) (local_handles p) gs gs4).
+  { intros h0 gh' A. destruct (Hhist4 h0 gh' A) as (gh3 & A3 & B3).
+    destruct (map_fst_nth gs gs3 h0 gh3 Hmap3 A3) as (gh & Ag & Efst). exists gh. split; [exact Ag|]. rewrite Efst. exact B3. }
   unfold register_local_inputs in E. rewrite E4 in E. cbn [res_bind] in E.
   destruct (send_ready_outgoing_ok p4 o1) as (p5 & o5 & E5 & O5). rewrite E5 in E. cbn [res_bind] in E.
   pose proof (QS_out_only _ _ _ _ _ HQS4 O5) as HQS5.
@@ -498,7 +502,7 @@ Proof.
   set (L4 := s_last_confirmed s4) in *.
   set (fa := if L4 =? NULL then s_current s4 else s_current s4 - L4) in *.
   destruct (fa <? w) eqn:Eg.
-  2:{ injection E as <- <-. exists gs4, R1. split; [rewrite Ho5; exact Ho1|]. split; [exact HQS5|].
+  2:{ injection E as <- <-. exists gs4, R1. split; [rewrite Ho5; exact Ho1|]. split; [exact HQS5|]. split; [|split; [exact Hhist|exact Hk5]].
       unfold TI. rewrite Hs5. fold s4. rewrite Hc4. split; [exact HG1|]. split; [exact HGI4|exact HPN4]. }
   pose proof HQS5 as [Hw5 Hd5 Hmode5 Hn5 Hconn5 Hgos5 HQ5 Hlast5 Hfr5 Hkinds5 Hpe5].
   rewrite Hs5 in HQ5, Hfr5. fold s4 L4 in HQ5, Hfr5. rewrite Hc4 in HQ5, Hfr5.
@@ -541,7 +545,8 @@ Proof.
       * rewrite D1, U1. exact HK.
       * exact HK.
     + intros h pi X. discriminate X.
-  - unfold TI. cbn [with_sync ps_sync advance_frame with_current with_queues s_current s_queues]. rewrite Hc4.
+  - split; [|split; [exact Hhist|exact Hk5]].
+    unfold TI. cbn [with_sync ps_sync advance_frame with_current with_queues s_current s_queues]. rewrite Hc4.
     rewrite replay_hist_app. cbn [replay_hist]. fold G1.
     split; [rewrite glen_app; lia|]. split.
     + eapply gi_read; try eassumption; lia.
@@ -552,14 +557,15 @@ Qed.
 Lemma advance_timeline : forall p gs g w d p' o r G,
   advance predict p = Ok (p', o, r) ->
   QS w d p gs -> JI w p g -> Forall (fun c => cs_last c < I32MAX) (ps_status p) -> TI p gs G ->
-  exists gs', QS w d p' gs' /\ TI p' gs' (replay_hist G (o_requests o)).
+  exists gs', QS w d p' gs' /\ TI p' gs' (replay_hist G (o_requests o)) /\
+    hist_step d (ps_pending p) (local_handles p) gs gs' /\ ps_kinds p' = ps_kinds p.
 Proof.
   intros p gs g w d p' o r G E HQS HJI Hbnd HTI.
   pose proof HQS as [Hw Hd Hmode Hn Hconn Hgos HQ Hlast Hfr Hkinds Hpe].
   destruct Hw as (Hw1 & Hw2 & Hw3). destruct Hmode as (Hrun & Hsp & Hspec & Hdf).
   unfold advance in E. rewrite Hrun in E. cbn [negb] in E.
   destruct (forallb _ (local_handles p)) eqn:Efa; cbn [negb] in E.
-  2:{ injection E as <- <- <-. exists gs. split; [exact HQS|exact HTI]. }
+  2:{ injection E as <- <- <-. exists gs. split; [exact HQS|]. split; [exact HTI|]. split; [apply hist_step_refl|reflexivity]. }
   assert (Hpend : forall h, In h (local_handles p) -> exists pi, assoc_get (ps_pending p) h = Some pi).
   { intros h Hin. rewrite forallb_forall in Efa. specialize (Efa h Hin).
     destruct (assoc_get (ps_pending p) h); [eauto|discriminate]. }
@@ -568,10 +574,10 @@ Proof.
                      then res_bind (save_current_state (ps_sync p)) (fun '(s1, r) => Ok (with_sync p s1, add_req out0 r))
                      else Ok (p, out0)) = Ok (p1, o1) /\ QS w d p1 gs /\ JI w p1 g /\ ps_status p1 = ps_status p /\
                      local_handles p1 = local_handles p /\ ps_pending p1 = ps_pending p /\ ps_remotes p1 = ps_remotes p /\
-                     TI p1 gs G /\ (forall G0, replay_hist G0 (o_requests o1) = G0)).
+                     TI p1 gs G /\ (forall G0, replay_hist G0 (o_requests o1) = G0) /\ ps_kinds p1 = ps_kinds p).
   { destruct (Z.eqb_spec (s_current (ps_sync p)) 0) as [Ec|Ec]; cbn [andb].
     - unfold save_current_state. rewrite Ec. cbn [Z.ltb Z.compare res_bind].
-      eexists; eexists. split; [reflexivity|]. split; [|split; [|split; [reflexivity|split; [reflexivity|split; [reflexivity|split; [reflexivity|split]]]]]].
+      eexists; eexists. split; [reflexivity|]. split; [|split; [|split; [reflexivity|split; [reflexivity|split; [reflexivity|split; [reflexivity|split; [|split; [|reflexivity]]]]]]]].
       + apply QS_same_queues; [exact HQS|first [reflexivity|cbn; lia]..].
       + destruct HJI as [Jw Jmp Jfr Jcur Jroll]. constructor; cbn [with_sync ps_maxpred ps_sync ps_sparse s_current s_maxpred]; try assumption.
         * rewrite <- Ec. exact Jfr.
@@ -583,15 +589,15 @@ Proof.
       + unfold TI in *. cbn [with_sync ps_sync s_current s_queues]. rewrite Ec in HTI. exact HTI.
       + intros G0. reflexivity.
     - exists p, out0. split; [reflexivity|]. split; [exact HQS|]. split; [exact HJI|].
-      split; [reflexivity|]. split; [reflexivity|]. split; [reflexivity|]. split; [reflexivity|]. split; [exact HTI|]. intros G0. reflexivity. }
-  destruct Hfirst as (p1 & o1 & E1 & HQS1 & HJI1 & Hst1 & Hlh1 & Hpe1 & Hrm1 & HTI1 & Hrep1). rewrite E1 in E. cbn [res_bind] in E.
+      split; [reflexivity|]. split; [reflexivity|]. split; [reflexivity|]. split; [reflexivity|]. split; [exact HTI|]. split; [intros G0; reflexivity|reflexivity]. }
+  destruct Hfirst as (p1 & o1 & E1 & HQS1 & HJI1 & Hst1 & Hlh1 & Hpe1 & Hrm1 & HTI1 & Hrep1 & Hkk1). rewrite E1 in E. cbn [res_bind] in E.
   rewrite (update_disconnects_noop p1) in E; [|rewrite Hst1; exact Hconn|rewrite Hrm1; exact Hgos]. cbn [res_bind] in E.
   destruct (advance_rollback_frame predict p1 o1) as [[p3 o3]| |] eqn:E3; cbn [res_bind] in E; try discriminate.
   injection E as <- <- <-.
-  destruct (advance_rollback_timeline p1 gs g w d o1 p3 o3 G E3 HQS1 HJI1) as (gs' & R & Ho & HQS' & HTI'); [| |exact HTI1|].
+  destruct (advance_rollback_timeline p1 gs g w d o1 p3 o3 G E3 HQS1 HJI1) as (gs' & R & Ho & HQS' & HTI' & Hh' & Hkk'); [| |exact HTI1|].
   { rewrite Hst1. exact Hbnd. }
   { intros h Hin. rewrite Hpe1. apply Hpend. rewrite <- Hlh1. exact Hin. }
-  exists gs'. split; [exact HQS'|]. rewrite Ho, replay_hist_app, Hrep1. exact HTI'.
+  exists gs'. split; [exact HQS'|]. split; [rewrite Ho, replay_hist_app, Hrep1; exact HTI'|]. split; [rewrite <- Hpe1, <- Hlh1; exact Hh'|congruence].
 Qed.
 
 
@@ -667,10 +673,20 @@ Qed.
 Lemma TI_sync : forall p p' gs G, ps_sync p' = ps_sync p -> TI p gs G -> TI p' gs G.
 Proof. intros p p' gs G E H. unfold TI in *. rewrite E. exact H. Qed.
 
+(* what one operation does to the input histories the session holds *)
+Definition op_hist (d : Z) (p : p2p) (o : sop) (gs gs' : list ghost) : Prop :=
+  match o with
+  | SRemote pl _ v => exists hist low, nth_error gs (Z.to_nat pl) = Some (hist, low) /\
+                                       gs' = updz gs (Z.to_nat pl) (hist ++ [v], low)
+  | SAdvance => hist_step d (ps_pending p) (local_handles p) gs gs'
+  | _ => gs' = gs
+  end.
+
 Lemma step_timeline : forall p gs g w d o,
   QS w d p gs -> JI w p g -> TI p gs (g_hist g) -> op_ok p o = true ->
   exists s gs' g', sstep predict p o = Ok s /\ QS w d (sr_state s) gs' /\
-    exec w g (o_requests (sr_out s)) = Some g' /\ JI w (sr_state s) g' /\ TI (sr_state s) gs' (g_hist g').
+    exec w g (o_requests (sr_out s)) = Some g' /\ JI w (sr_state s) g' /\ TI (sr_state s) gs' (g_hist g') /\
+    op_hist d p o gs gs' /\ ps_kinds (sr_state s) = ps_kinds p.
 Proof.
   intros p gs g w d o HQS HJI HTI Hok.
   destruct o as [h v|pl f v|ep st|hs|h|h dd|]; cbn [op_ok] in Hok; try discriminate.
@@ -678,7 +694,8 @@ Proof.
     cbn [sstep] in Es. destruct (local_progress w d p gs h v HQS) as (HQl & Hs & _).
     destruct (api_add_local_input p h v) as [p1 r1] eqn:E1. injection Es as <-. cbn [sr_state sr_out out0 o_requests exec fst] in *.
     injection Ex as <-. exists (mksr p1 out0 r1), gs, g. cbn [sstep sr_state sr_out out0 o_requests exec]. rewrite E1.
-    split; [reflexivity|]. split; [exact HQl|]. split; [reflexivity|]. split; [exact HJ'|]. eapply TI_sync; [exact Hs|exact HTI].
+    split; [reflexivity|]. split; [exact HQl|]. split; [reflexivity|]. split; [exact HJ'|]. split; [eapply TI_sync; [exact Hs|exact HTI]|].
+    split; [reflexivity|]. unfold api_add_local_input in E1. destruct (kind_at p h) as [[| |]|]; injection E1 as <- _; reflexivity.
   - apply andb_prop in Hok. destruct Hok as [Hok H5]. apply andb_prop in Hok. destruct Hok as [Hok H4].
     apply andb_prop in Hok. destruct Hok as [Hok H3]. apply andb_prop in Hok. destruct Hok as [H1 H2].
     destruct (nth_error (ps_kinds p) (Z.to_nat pl)) as [[|e|e]|] eqn:Ek; try discriminate.
@@ -688,6 +705,9 @@ Proof.
     exists (mksr p' out0 AOk), (updz gs (Z.to_nat pl) (hist ++ [v], low)), g. cbn [sr_state sr_out out0 o_requests exec].
     split; [reflexivity|]. split; [exact HQ'|]. split; [reflexivity|].
     split; [eapply JI_frame; [exact HJI|]; eapply ev_input_frame; exact E|].
+    split; [|split; [cbn [op_hist]; exists hist, low; split; [exact Eg|reflexivity]|]].
+    2:{ clear - E. unfold ev_input in E. destruct (negb _); [discriminate|]. destruct (cs_disc _); [injection E as <-; reflexivity|].
+        destruct (negb _); [discriminate|]. destruct (add_remote_input _ _ _ _); cbn [res_bind] in E; try discriminate. injection E as <-. reflexivity. }
     destruct HTI as (HG & HGI & HPN). unfold TI. rewrite Hc', Hqs'.
     pose proof (Forall2_nth _ _ _ _ _ _ (qs_qs _ _ _ _ HQS) Eq Eg) as Hqi. cbn [fst snd] in Hqi.
     destruct (gq_remote_add _ _ (g_hist g) (Z.to_nat pl) q hist low q' v Hqi (HGI _ _ _ Eq Eg) (HPN _ _ _ Eq Eg) F' P') as (HGQ' & HPN').
@@ -708,15 +728,15 @@ Proof.
     split; [reflexivity|]. split.
     { apply gossip_progress; [exact HQS|]. apply Forall_forall. intros s0 Hs0. rewrite forallb_forall in Hok.
       specialize (Hok s0 Hs0). destruct (cs_disc s0); [discriminate|reflexivity]. }
-    split; [reflexivity|]. split; [exact HJ'|].
+    split; [reflexivity|]. split; [exact HJ'|]. split; [|split; [reflexivity|unfold gossip; destruct (nth_error (ps_remotes p) (Z.to_nat ep)); reflexivity]].
     eapply TI_sync; [|exact HTI]. unfold gossip. destruct (nth_error (ps_remotes p) (Z.to_nat ep)); reflexivity.
   - assert (Hbnd : Forall (fun c => cs_last c < I32MAX) (ps_status p)).
     { apply Forall_forall. intros s0 Hs0. rewrite forallb_forall in Hok. specialize (Hok s0 Hs0). lia. }
     destruct (advance_progress predict p gs g w d HQS HJI Hbnd) as (p' & o & r & _ & g' & E & _ & Ex & HJ').
-    destruct (advance_timeline p gs g w d p' o r (g_hist g) E HQS HJI Hbnd HTI) as (gs' & HQ' & HTI').
+    destruct (advance_timeline p gs g w d p' o r (g_hist g) E HQS HJI Hbnd HTI) as (gs' & HQ' & HTI' & Hh' & Hkk').
     cbn [sstep]. rewrite E. cbn [res_bind].
     exists (mksr p' o r), gs', g'. cbn [sr_state sr_out]. split; [reflexivity|]. split; [exact HQ'|]. split; [exact Ex|].
-    split; [exact HJ'|]. rewrite (exec_hist _ _ _ _ Ex). exact HTI'.
+    split; [exact HJ'|]. split; [rewrite (exec_hist _ _ _ _ Ex); exact HTI'|]. split; [exact Hh'|exact Hkk'].
 Qed.
 
 (* the run theorem with the timeline invariant *)
@@ -730,7 +750,7 @@ Proof.
   - right. exists p, [], gs, g. cbn [srun_in srun exec_outs]. split; [reflexivity|]. split; [reflexivity|]. split; [reflexivity|].
     split; [exact HQS|]. split; [exact HJI|exact HTI].
   - cbn [srun_in srun]. destruct (op_ok p o) eqn:Hok; [|left; reflexivity].
-    destruct (step_timeline p gs g w d o HQS HJI HTI Hok) as (s & gs1 & g1 & Es & HQ1 & Ex1 & HJ1 & HT1).
+    destruct (step_timeline p gs g w d o HQS HJI HTI Hok) as (s & gs1 & g1 & Es & HQ1 & Ex1 & HJ1 & HT1 & _ & _).
     rewrite Es. cbn [res_bind].
     destruct (IH (sr_state s) gs1 g1 w d HQ1 HJ1 HT1) as [Herr|(p' & outs & gs' & g' & E1 & E2 & Ex & HQ' & HJ' & HT')].
     + left. rewrite Herr. reflexivity.
@@ -739,6 +759,63 @@ Proof.
       split; [cbn [exec_outs]; rewrite Ex1; exact Ex|]. split; [exact HQ'|]. split; [exact HJ'|exact HT'].
 Qed.
 
+
+(* the inputs of remote player pl delivered during a run, in order *)
+Definition remote_vals (pl : Z) (ops : list sop) : list Z :=
+  flat_map (fun o => match o with SRemote pl' _ v => if pl' =? pl then [v] else [] | _ => [] end) ops.
+
+(* run_timeline, plus: the history held for a remote player is what was held before followed by exactly
+   the inputs delivered for that player, in order (nothing lost, duplicated, reordered or altered) *)
+Theorem run_timeline_streams : forall ops p gs g w d,
+  QS w d p gs -> JI w p g -> TI p gs (g_hist g) ->
+  srun_in predict p ops = Err \/
+  exists p' outs gs' g', srun_in predict p ops = Ok (p', outs) /\ srun predict p ops = Ok (p', outs) /\
+    exec_outs w g outs = Some g' /\ QS w d p' gs' /\ JI w p' g' /\ TI p' gs' (g_hist g') /\
+    ps_kinds p' = ps_kinds p /\
+    forall pl e hist low, 0 <= pl -> nth_error (ps_kinds p) (Z.to_nat pl) = Some (KRemote e) ->
+      nth_error gs (Z.to_nat pl) = Some (hist, low) ->
+      exists low', nth_error gs' (Z.to_nat pl) = Some (hist ++ remote_vals pl ops, low').
+Proof.
+  induction ops as [|o ops IH]; intros p gs g w d HQS HJI HTI.
+  - right. exists p, [], gs, g. cbn [srun_in srun exec_outs remote_vals flat_map]. split; [reflexivity|]. split; [reflexivity|]. split; [reflexivity|].
+    split; [exact HQS|]. split; [exact HJI|]. split; [exact HTI|]. split; [reflexivity|].
+    intros pl e hist low _ _ A. exists low. rewrite app_nil_r. exact A.
+  - cbn [srun_in srun]. destruct (op_ok p o) eqn:Hok; [|left; reflexivity].
+    destruct (step_timeline p gs g w d o HQS HJI HTI Hok) as (s & gs1 & g1 & Es & HQ1 & Ex1 & HJ1 & HT1 & Hop & Hk1).
+    rewrite Es. cbn [res_bind].
+    destruct (IH (sr_state s) gs1 g1 w d HQ1 HJ1 HT1) as [Herr|(p' & outs & gs' & g' & E1 & E2 & Ex & HQ' & HJ' & HT' & Hk' & Hst')].
+    + left. rewrite Herr. reflexivity.
+    + right. rewrite E1, E2. cbn [res_bind].
+      exists p', ((sr_out s, sr_api s) :: outs), gs', g'. split; [reflexivity|]. split; [reflexivity|].
+      split; [cbn [exec_outs]; rewrite Ex1; exact Ex|]. split; [exact HQ'|]. split; [exact HJ'|]. split; [exact HT'|].
+      split; [congruence|].
+      intros pl e hist low Hpl Hk A.
+      (* the step *)
+      assert (Hstep : exists low1, nth_error gs1 (Z.to_nat pl) = Some (hist ++ remote_vals pl [o], low1)).
+      { destruct o as [h v|pl' f v|ep st|hs|h|h dd|]; cbn [op_ok] in Hok; try discriminate; cbn [op_hist] in Hop;
+          cbn [remote_vals flat_map]; rewrite ?app_nil_r.
+        - subst gs1. exists low. exact A.
+        - destruct Hop as (hist' & low' & A' & ->).
+          apply andb_prop in Hok. destruct Hok as [Hok _]. apply andb_prop in Hok. destruct Hok as [Hok _].
+          apply andb_prop in Hok. destruct Hok as [Hok _]. apply andb_prop in Hok. destruct Hok as [H1 _].
+          assert (Hl : (Z.to_nat pl' < length gs)%nat) by (apply nth_error_Some; congruence).
+          destruct (Z.eqb_spec pl' pl) as [->|Hne].
+          + rewrite A in A'. injection A' as <- <-. exists low. rewrite nth_error_updz_same by exact Hl. reflexivity.
+          + exists low. rewrite nth_error_updz_other by lia. rewrite app_nil_r. exact A.
+        - subst gs1. exists low. exact A.
+        - assert (Hl : (Z.to_nat pl < length gs1)%nat).
+          { pose proof (qs_n _ _ _ _ HQ1) as (X1 & _ & X3 & _). pose proof (qs_n _ _ _ _ HQS) as (Y1 & _ & Y3 & _).
+            assert (nth_error gs (Z.to_nat pl) <> None) as Z1 by congruence. apply nth_error_Some in Z1. rewrite Hk1 in X3. lia. }
+          destruct (nth_error gs1 (Z.to_nat pl)) as [[hist1 low1]|] eqn:A1; [|apply nth_error_None in A1; lia].
+          destruct (Hop _ _ A1) as (gh & A0 & [B|(Hin & _)]).
+          + rewrite A in A0. injection A0 as <-. cbn [fst] in B. exists low1. rewrite B. reflexivity.
+          + exfalso. rewrite Z2Nat.id in Hin by lia.
+            apply (local_handles_spec p pl (QS_nplayers _ _ _ _ HQS)) in Hin. destruct Hin as (_ & Hin). congruence. }
+      destruct Hstep as (low1 & A1).
+      destruct (Hst' pl e _ low1 Hpl ltac:(rewrite Hk1; exact Hk) A1) as (low' & A').
+      exists low'. rewrite A'. f_equal. f_equal. rewrite <- app_assoc. f_equal.
+      change (o :: ops) with ([o] ++ ops). unfold remote_vals. rewrite flat_map_app. reflexivity.
+Qed.
 
 Lemma TI_start : forall n w d kinds eps, TI (session_start n w false d kinds eps 0) (repeat ([], 0) (Z.to_nat n)) [].
 Proof.
@@ -779,6 +856,54 @@ Proof.
   apply (gq_known _ _ _ _ _ (HGI h q (hist, low) Eq Eg)); [lia|cbn [fst]; lia|].
   destruct (Z.eq_dec (q_first_incorrect q) NULL) as [En|En]; [left; exact En|right].
   destruct (qi_p4 _ _ _ _ _ Hqi En) as (_ & (A & _) & _). lia.
+Qed.
+
+
+(* remote players in closed form: every confirmed, simulated frame f was last simulated with the f-th
+   input delivered for that player during the run *)
+Theorem confirmed_frames_use_delivered_inputs : forall ops n w d kinds eps p outs,
+  1 <= w -> 0 <= d -> w + d + 3 <= QLEN -> 0 < n -> Z.of_nat (length kinds) = n -> players_only kinds ->
+  srun_in predict (session_start n w false d kinds eps 0) ops = Ok (p, outs) ->
+  exists g, exec_outs w (game0 w) outs = Some g /\ gframe g = s_current (ps_sync p) /\
+    forall pl e f, 0 <= pl -> nth_error kinds (Z.to_nat pl) = Some (KRemote e) ->
+      0 <= f <= s_last_confirmed (ps_sync p) -> f < s_current (ps_sync p) ->
+      f < hlen (remote_vals pl ops) /\ gvalL (g_hist g) f (Z.to_nat pl) = hval (remote_vals pl ops) f.
+Proof.
+  intros ops n w d kinds eps p outs Hw Hd Hcap Hn Hlen Hpl H.
+  destruct (run_timeline_streams ops _ _ (game0 w) w d (QS_start n w d kinds eps Hw Hd Hcap Hn Hlen Hpl)
+              (JI_start n w d kinds eps 0 ltac:(lia)) (TI_start n w d kinds eps))
+    as [E|(p' & outs' & gs & g & E1 & _ & Ex & HQS & HJ & (HG & HGI & _) & _ & Hst)]; [congruence|].
+  rewrite H in E1. injection E1 as <- <-.
+  exists g. split; [exact Ex|]. split; [exact (ji_frame _ _ _ HJ)|].
+  intros pl e f Hp0 Hk Hf Hfc.
+  assert (Hl : (Z.to_nat pl < length kinds)%nat) by (apply nth_error_Some; congruence).
+  destruct (Hst pl e [] 0 Hp0) as (low' & Eg).
+  { unfold session_start, p2p_new. cbn [with_running ps_kinds]. exact Hk. }
+  { apply nth_error_repeat. lia. }
+  cbn [app] in Eg.
+  pose proof (qs_qs _ _ _ _ HQS) as HQ. pose proof (QsI_length _ _ _ _ HQ) as Hlq.
+  destruct (nth_error_some_len (s_queues (ps_sync p)) gs _ _ Hlq Eg) as (q & Eq).
+  pose proof (Forall2_nth _ _ _ _ _ _ HQ Eq Eg) as Hqi. cbn [fst snd] in Hqi.
+  pose proof (qi_conf _ _ _ _ _ Hqi) as Hcf.
+  split; [lia|].
+  apply (gq_known _ _ _ _ _ (HGI _ q _ Eq Eg)); [lia|cbn [fst]; lia|].
+  destruct (Z.eq_dec (q_first_incorrect q) NULL) as [En|En]; [left; exact En|right].
+  destruct (qi_p4 _ _ _ _ _ Hqi En) as (_ & (A & _) & _). lia.
+Qed.
+
+(* local players, one call at a time: from any state satisfying the invariants (every reachable state
+   does: run_timeline) an operation inside the space succeeds, re-establishes them, and changes the
+   held histories exactly as op_hist says - in particular advance_frame appends to a local player's
+   history at most its pending input (the value of the last add_local_input for it), preceded by the
+   d blank inputs of the input delay when it is the player's first input, and nothing else *)
+Theorem held_inputs_step : forall p gs g w d o,
+  QS w d p gs -> JI w p g -> TI p gs (g_hist g) -> op_ok p o = true ->
+  exists s gs' g', sstep predict p o = Ok s /\ QS w d (sr_state s) gs' /\ JI w (sr_state s) g' /\
+    TI (sr_state s) gs' (g_hist g') /\ op_hist d p o gs gs'.
+Proof.
+  intros p gs g w d o HQS HJI HTI Hok.
+  destruct (step_timeline p gs g w d o HQS HJI HTI Hok) as (s & gs' & g' & A & B & _ & C & D & E & _).
+  exists s, gs', g'. split; [exact A|]. split; [exact B|]. split; [exact C|]. split; [exact D|exact E].
 Qed.
 
 End Timeline.
